@@ -361,6 +361,10 @@ pub fn record_analysis(args: &[String]) {
         // the first 8 records are SymbolTable::new(): enter Global + 7 built-ins with ids 0..6
         let init_ok = trace.len() >= 8 && trace[0].op == "enter" && trace[0].a == "Global"
             && trace[1..8].iter().enumerate().all(|(i, e)| e.op == "bind" && e.res == i as i64);
+        // no operation at all: the pipeline found a syntax error that the tree does not show (for example in an include line); not analysed
+        if trace.is_empty() && r.is_ok() { skipped_syntax += 1; continue; }
+        // a panic before the symbol table exists (reading / parsing the source and its includes)
+        if !init_ok { if let Err(p) = &r { panics.push(json!({"text": t, "panic": p})); analysed += 1; continue; } }
         if !init_ok { bad_init.push(json!({"text": t, "head": trace.iter().take(9).map(|e| format!("{:?}", e)).collect::<Vec<_>>() })); continue; }
         if trace.len() - 8 > max_ops { continue; }
         out.put(&json!({"ev": "reset", "text": t}));
